@@ -712,8 +712,16 @@ class CompGen:
           self.add_atoms_for(p, sg["type"], True, None)
     # targets: own outs / wires, children's in ports
     targets = []   # (path, type, host-kind)
+    # a struct wire that is only a connected COPY of another struct signal of this component (the source
+    # itself is typically driven piece by piece: fields, slices of fields)
+    self.copy_of = None
+    cands = [sg for sg in self.signals if sg["kind"] in ("out", "wire") and isinstance(sg["type"], str) and not sg["dims"]]
+    if cands and c.random() < 0.3 and getattr(self, "fixed_ports", None) is None:
+      src = c.choice(cands)
+      self.signals.append({"name": "wcp0", "kind": "wire", "type": src["type"], "dims": []})
+      self.copy_of = ("wcp0", src["name"])
     for sg in self.signals:
-      if sg["kind"] in ("out", "wire"):
+      if sg["kind"] in ("out", "wire") and sg["name"] != "wcp0":
         for p in self.sig_elems([], sg):
           targets.append((p, sg["type"], None))
     child_insts = []
@@ -941,6 +949,9 @@ class CompGen:
         # could not build a value: registers hold their default forever
         self.items.append({"k": "ff", "name": "ff%d" % nff, "stmts": []})
         nff += 1
+    if self.copy_of:
+      self.items.append({"k": "connect", "a": [["a", self.copy_of[0]]], "b": [["a", self.copy_of[1]]],
+                         "flip": c.random() < 0.5, "op": "connect"})
     # seeded source order of the items (order.stmt)
     c.shuffle(self.items)
     return {"signals": self.signals, "subs": self.subs, "frees": self.frees, "items": self.items,
